@@ -11,14 +11,15 @@ import (
 // Scheduler instrumentation (syntactic; see DESIGN.md 3.3). Applied to the files that contain the SDK's in-process
 // synchronisation: key cache, generic cache, session cache, crypto key, and both secure-memory implementations.
 var schedFiles = map[string]bool{
-	"go/appencryption/key_cache.go":             true,
-	"go/appencryption/session_cache.go":         true,
-	"go/appencryption/session.go":               true,
-	"go/appencryption/envelope.go":              true,
-	"go/appencryption/internal/key.go":          true,
-	"go/appencryption/pkg/cache/cache.go":       true,
-	"go/securememory/protectedmemory/secret.go": true,
-	"go/securememory/memguard/secret.go":        true,
+	"go/appencryption/key_cache.go":              true,
+	"go/appencryption/session_cache.go":          true,
+	"go/appencryption/session.go":                true,
+	"go/appencryption/envelope.go":               true,
+	"go/appencryption/internal/key.go":           true,
+	"go/appencryption/pkg/cache/cache.go":        true,
+	"go/appencryption/pkg/persistence/memory.go": true,
+	"go/securememory/protectedmemory/secret.go":  true,
+	"go/securememory/memguard/secret.go":         true,
 }
 
 func schedTarget(dir, name string) bool { return schedFiles[dir+"/"+name] }
